@@ -5,9 +5,10 @@ use crate::dictionary::word_idx::WordIdx;
 use crate::dictionary::LexType;
 
 use crate::common::{BOS_EOS_CONNECTION_ID, MAX_SENTENCE_LENGTH};
+use crate::utils::FromU32;
 
 const MAX_COST: i32 = i32::MAX;
-const INVALID_IDX: u16 = u16::MAX;
+const INVALID_IDX: u32 = u32::MAX;
 
 /// 160 bits of each without extra padding.
 #[derive(Default, Debug, Clone)]
@@ -18,7 +19,7 @@ pub struct Node {
     pub start_word: usize,
     pub left_id: u16,
     pub right_id: u16,
-    pub min_idx: u16,
+    pub min_idx: u32,
     pub min_cost: i32,
 }
 
@@ -126,7 +127,7 @@ impl Lattice {
         });
     }
 
-    fn search_min_node<C>(&self, start_node: usize, left_id: u16, connector: &C) -> (u16, i32)
+    fn search_min_node<C>(&self, start_node: usize, left_id: u16, connector: &C) -> (u32, i32)
     where
         C: ConnectorCost,
     {
@@ -141,7 +142,7 @@ impl Lattice {
             // Depending on the order of tie-breaking, the result can be different from MeCab.
             // Using <= (not <) will produce results identical to MeCab in most case (empirically).
             if new_cost <= min_cost {
-                min_idx = i as u16;
+                min_idx = i as u32;
                 min_cost = new_cost;
             }
         }
@@ -161,7 +162,7 @@ impl Lattice {
         let mut end_node = eos.start_node;
         let mut min_idx = eos.min_idx;
         while end_node != 0 {
-            let node = &self.ends[end_node][usize::from(min_idx)];
+            let node = &self.ends[end_node][usize::from_u32(min_idx)];
             top_nodes.push((end_node, node.clone()));
             (end_node, min_idx) = (node.start_node, node.min_idx);
         }
